@@ -391,7 +391,18 @@ Record Tbl (k : case) (s : state) : Prop := mkTbl {
      /\ (id_to id < k_nactors k \/ id_to id = ESC \/ id_to id = BLK)
      /\ denoms_nonneg (id_amount id);
   tb_pden : NoDup (map ap_denom (k_params k));
-  tb_params : st_params s = k_params k }.
+  (* the parameters in force support exactly the assets of the case's genesis list, each once *)
+  tb_sd : same_denoms (k_params k) (st_params s);
+  tb_pnd : NoDup (map ap_denom (st_params s)) }.
+
+Lemma tbl_lookup k s p0 : Tbl k s -> In p0 (k_params k) ->
+  exists p, get_param (st_params s) (ap_denom p0) = Some p /\ In p (st_params s) /\ ap_denom p = ap_denom p0.
+Proof.
+  intros T Hin. destruct (get_param (st_params s) (ap_denom p0)) as [p|] eqn:E.
+  - exists p. split; [reflexivity|]. split; [|exact (get_param_denom _ _ _ E)].
+    unfold get_param in E. apply find_some in E. tauto.
+  - exfalso. apply (tb_sd _ _ T) in E. exact (get_param_In _ _ Hin E).
+Qed.
 
 Lemma id_fields P id c : wfc P id c ->
   id_hl id = c_hl c /\ id_sender id = c_sender c /\ id_to id = c_to c /\ id_amount id = c_amount c.
@@ -568,9 +579,8 @@ Section OneStep.
     - rewrite (vw_bsups _ _ _ _ _ V), (vw_bsups _ _ _ _ _ V'), (vw_contracts _ _ _ _ _ V), (vw_contracts _ _ _ _ _ V'), !cproj_Pof.
       unfold bsproj. rewrite combine_map_r, map_map. apply eqb_true_iff. apply map_ext_in. intros p Hp. cbn [fst snd].
       rewrite fold3_sum.
-      assert (Hgp : get_param (st_params s) (ap_denom p) = Some p).
-      { rewrite <- (sf_params _ _ _ _ F), (tb_params _ _ T). exact (get_param_NoDup _ _ (tb_pden _ _ T) Hp). }
-      assert (Hgp' : get_param (st_params s') (ap_denom p) = Some p) by (rewrite (sf_params _ _ _ _ F); exact Hgp).
+      destruct (tbl_lookup k s' p T Hp) as (p1 & Hgp' & _ & _).
+      assert (Hgp : get_param (st_params s) (ap_denom p) = Some p1) by (rewrite <- (sf_params _ _ _ _ F); exact Hgp').
       destruct (inv_asset _ I _ _ Hgp) as (a & _ & _ & _ & Hcur & Hsup & _).
       destruct (inv_asset _ I' _ _ Hgp') as (a' & _ & _ & _ & Hcur' & Hsup' & _).
       rewrite Hsup, Hsup', Hcur, Hcur'.
@@ -870,7 +880,7 @@ End SumWhere.
 
 (** the monitor's window bookkeeping agrees with the model's, for the time-limited assets *)
 Definition WsRel (k : case) (s : state) (ws : list (Z * Z)) : Prop :=
-  forall p w, In (p, w) (combine (k_params k) ws) -> ap_tl p = true ->
+  forall p w, In (p, w) (combine (k_params k) ws) ->
     option_map as_el (get (ap_denom p) (st_assets s)) = Some (fst w) /\ snd w = sup_of (st_win s) (ap_denom p).
 
 Lemma In_combine4 {P S B W} (FS : P -> S) (FB : P -> B) : forall (l : list P) (ws : list W) x,
@@ -883,7 +893,7 @@ Proof.
   - destruct (IH ws x Hin) as (p' & w' & H1 & H2 & H3). exists p', w'. split; [right; exact H1|]. split; [right; exact H2|exact H3].
 Qed.
 
-Lemma p04_state4 k nd s o ws : Inv s -> Tbl k s -> Vw4 k nd s o -> WsRel k s ws -> p04 k o ws = 0.
+Lemma p04_state4 k nd s o ws : Inv s -> Tbl k s -> Vw4 k nd s o -> WsRel k s ws -> p04 k (st_params s) o ws = 0.
 Proof.
   intros I T V WR. pose proof (Inv_C04_of_Inv s I) as [Hesc Hasset].
   assert (Hd : denoms_of o = zseq nd) by (unfold denoms_of; rewrite (v4_bals _ _ _ _ V), mat_hd_length; reflexivity).
@@ -901,8 +911,7 @@ Proof.
                     (combine (combine (combine (k_params k) (o_sups o)) (o_bsups o)) ws) = true).
   { intros f Hf. rewrite (v4_sups _ _ _ _ V), (v4_bsups _ _ _ _ V). unfold sproj_assets, bsproj.
     apply forallb_forall. intros x Hx. destruct (In_combine4 _ _ _ _ _ Hx) as (p & w & Hp & Hpw & ->).
-    assert (Hgp : get_param (st_params s) (ap_denom p) = Some p)
-      by (rewrite (tb_params _ _ T); exact (get_param_NoDup _ _ (tb_pden _ _ T) Hp)).
+    destruct (tbl_lookup k s p T Hp) as (p1 & Hgp & _ & _).
     destruct (inv_asset _ I _ _ Hgp) as (a & Ha & _). rewrite Ha. simpl. exact (Hf p w a Hp Hpw Ha). }
   unfold p04. rewrite Hrow, Hd.
   replace (eqb (map (fun d => bal (st_bank s) ESC d) (zseq nd))
@@ -911,15 +920,13 @@ Proof.
   cbn [negb].
   rewrite Hper.
   2:{ intros p w a Hp Hpw Ha.
-      assert (Hgp : get_param (st_params s) (ap_denom p) = Some p)
-        by (rewrite (tb_params _ _ T); exact (get_param_NoDup _ _ (tb_pden _ _ T) Hp)).
+      destruct (tbl_lookup k s p T Hp) as (p1 & Hgp & _ & _).
       destruct (Hasset _ _ Hgp) as (a0 & Ha0 & Hin & Hout & _). rewrite Ha in Ha0. inversion Ha0; subst a0.
       rewrite (sw_in k nd s o I T V), (sw_out k nd s o I T V), <- Hin, <- Hout, !Z.eqb_refl. reflexivity. }
   cbn [negb].
   rewrite Hper.
   2:{ intros p w a Hp Hpw Ha.
-      assert (Hgp : get_param (st_params s) (ap_denom p) = Some p)
-        by (rewrite (tb_params _ _ T); exact (get_param_NoDup _ _ (tb_pden _ _ T) Hp)).
+      destruct (tbl_lookup k s p T Hp) as (p1 & Hgp & _ & _).
       destruct (Hasset _ _ Hgp) as (a0 & Ha0 & _ & _ & Hcur & Hsup & _). rewrite Ha in Ha0. inversion Ha0; subst a0.
       rewrite (sw_ci k nd s o I T V), (sw_co k nd s o I T V), <- wsum_sub.
       rewrite <- (wsum_ext (w_cur (ap_denom p)) _ _ (fun _ c _ => w_cur_split (ap_denom p) c)).
@@ -927,15 +934,14 @@ Proof.
   cbn [negb].
   rewrite Hper; [reflexivity|].
   intros p w a Hp Hpw Ha.
-  assert (Hgp : get_param (st_params s) (ap_denom p) = Some p)
-    by (rewrite (tb_params _ _ T); exact (get_param_NoDup _ _ (tb_pden _ _ T) Hp)).
+  destruct (tbl_lookup k s p T Hp) as (p1 & Hgp & _ & _). rewrite Hgp.
   destruct (Hasset _ _ Hgp) as (a0 & Ha0 & _ & _ & _ & _ & Hlim & Hoc & Htl). rewrite Ha in Ha0. inversion Ha0; subst a0.
   apply andb_true_iff. split; [apply andb_true_iff; split; [apply andb_true_iff; split|]|]; try (apply Z.leb_le; lia).
-  destruct (ap_tl p) eqn:Etl; [|reflexivity]. cbn. destruct (Htl eq_refl) as (_ & _ & Hw).
-  destruct (WR p w Hpw Etl) as [_ Hsw]. rewrite Hsw. apply Z.leb_le. exact Hw.
+  destruct (ap_tl p1) eqn:Etl; [|reflexivity]. cbn. destruct (Htl eq_refl) as (_ & _ & Hw).
+  destruct (WR p w Hpw) as [_ Hsw]. rewrite Hsw. apply Z.leb_le. exact Hw.
 Qed.
 
-Lemma p04_state k nd s code o ws : Inv s -> Tbl k s -> Vw k nd s code o -> WsRel k s ws -> p04 k o ws = 0.
+Lemma p04_state k nd s code o ws : Inv s -> Tbl k s -> Vw k nd s code o -> WsRel k s ws -> p04 k (st_params s) o ws = 0.
 Proof. intros I T V WR. exact (p04_state4 k nd s o ws I T (Vw_Vw4 _ _ _ _ _ V) WR). Qed.
 
 
@@ -1149,9 +1155,9 @@ Proof.
   destruct (msg_win s o I S W Hna Hns) as ((Hel & _ & _) & Hwin).
   rewrite (wclaims_eq k po ob ws (Pof s) (Pof (step s o)))
     by (first [rewrite (vw_contracts _ _ _ _ _ V)|rewrite (vw_contracts _ _ _ _ _ V')]; reflexivity).
-  intros p w Hin Htl. rewrite combine_map_snd in Hin. apply in_map_iff in Hin.
+  intros p w Hin. rewrite combine_map_snd in Hin. apply in_map_iff in Hin.
   destruct Hin as ([p0 [el0 w0]] & E & Hin0). cbn [fst snd] in E. inversion E; subst p w. clear E.
-  destruct (WR p0 (el0, w0) Hin0 Htl) as [He Hw]. cbn [fst snd] in *.
+  destruct (WR p0 (el0, w0) Hin0) as [He Hw]. cbn [fst snd] in *.
   split; [unfold elmap in Hel; rewrite (Hel (ap_denom p0)); exact He|].
   rewrite Hwin, Hw. f_equal.
   rewrite (zsum_map_ext _ (fun id => Gci (ap_denom p0) (get id (st_contracts (step s o))) - Gci (ap_denom p0) (get id (st_contracts s)))).
@@ -1227,67 +1233,90 @@ Qed.
 
 Definition PrevInv (s : state) : Prop := st_prev s = st_time s.
 
-Lemma wtick_rule dt p e w : wtick dt (p, (e, w)) = tick_rule dt p e w.
-Proof. reflexivity. Qed.
+Lemma wtick_in_force P dt p0 p e w : get_param P (ap_denom p0) = Some p -> wtick P dt (p0, (e, w)) = tick_rule dt p e w.
+Proof. intros H. unfold wtick, tick_rule. rewrite H. reflexivity. Qed.
 
-Lemma begin_block_ws k s dt ws : Inv s -> st_params s = k_params k -> NoDup (map ap_denom (k_params k)) ->
-  PrevInv s -> WsRel k s ws ->
-  WsRel k (begin_block s dt) (map (wtick dt) (combine (k_params k) ws)) /\ (k_params k <> [] -> PrevInv (begin_block s dt)).
-Proof.
-  intros I HP Hnd HPrev WR. unfold begin_block. cbv zeta.
-  set (s0 := new_block s dt). set (s1 := fold_left (refund_one (st_height s0)) (due (st_height s0) (st_queue s0)) s0).
-  destruct (fold_quiet (refund_one (st_height s0)) (refund_one_quiet (st_height s0)) (due (st_height s0) (st_queue s0)) s0)
-    as ((Hel & Ht & Hp) & Hwn). fold s1 in Hel, Ht, Hp, Hwn.
-  assert (Hpar1 : st_params s1 = k_params k) by (unfold s1; rewrite refund_fold_params; exact HP).
-  unfold update_windows. rewrite Hpar1. destruct (k_params k) as [|p0 P] eqn:EP.
-  - split; [intros p w Hin; rewrite EP in Hin; destruct Hin|congruence].
-  - rewrite <- EP in *. clear p0 P EP.
-    assert (Hdt : st_time s1 - st_prev s1 = dt).
-    { rewrite Ht, Hp. unfold s0, new_block. sproj. unfold PrevInv in HPrev. lia. }
-    rewrite Hdt. destruct (tick_fold_at dt (k_params k) s1 Hnd) as [Hat _].
-    split; [|intros _; unfold PrevInv; reflexivity].
-    intros p w Hin Htl. sproj. rewrite combine_map_snd in Hin. apply in_map_iff in Hin.
-    destruct Hin as ([p1 [e0 w0]] & E & Hin0). cbn [fst] in E. inversion E; subst p w. clear E.
-    destruct (WR p1 (e0, w0) Hin0 Htl) as [He Hw]. cbn [fst snd] in He, Hw.
-    assert (Hp1 : In p1 (k_params k)) by (exact (in_combine_l _ _ _ _ Hin0)).
-    assert (Ha : exists a, get (ap_denom p1) (st_assets s1) = Some a /\ as_el a = e0).
-    { pose proof (Hel (ap_denom p1)) as E1. unfold elmap in E1. change (st_assets s0) with (st_assets s) in E1. rewrite He in E1.
-      destruct (get (ap_denom p1) (st_assets s1)) as [a|] eqn:G; [|discriminate]. exists a. split; [reflexivity|]. simpl in E1. congruence. }
-    destruct Ha as (a & Ha & Hae). destruct (Hat p1 a Hp1 Ha) as [F1 F2].
-    unfold elmap in F1. change (if ap_tl p1 && (e0 + dt <? ap_period p1) then (e0 + dt, w0) else (0, 0)) with (tick_rule dt p1 e0 w0).
-    rewrite F1, F2, Hae, Hwn. change (st_win s0) with (st_win s). rewrite <- Hw.
-    split; reflexivity.
-Qed.
+Definition PInv (k : case) (s : state) : Prop := k_params k <> [] -> PrevInv s.
 
 Lemma WsRel_nil k s ws : k_params k = [] -> WsRel k s ws.
 Proof. intros E p w Hin. rewrite E in Hin. destruct Hin. Qed.
 
-Definition PInv (k : case) (s : state) : Prop := k_params k <> [] -> PrevInv s.
-
-Lemma adv_ws k : forall dts s ws, Inv s -> Strict s -> st_params s = k_params k -> NoDup (map ap_denom (k_params k)) ->
-  PInv k s -> WsRel k s ws ->
-  WsRel k (fold_left begin_block dts s) (wticks k ws dts) /\ PInv k (fold_left begin_block dts s).
+Lemma begin_block_ws k s dt ws : Inv s -> Tbl k s -> PInv k s -> WsRel k s ws ->
+  WsRel k (begin_block s dt) (map (wtick (st_params s) dt) (combine (k_params k) ws)) /\ PInv k (begin_block s dt).
 Proof.
-  unfold wticks. induction dts as [|dt dts IH]; intros s ws I S HP Hnd HPv WR; simpl; [auto|].
+  intros I T HPrev WR. unfold begin_block. cbv zeta.
+  set (s0 := new_block s dt). set (s1 := fold_left (refund_one (st_height s0)) (due (st_height s0) (st_queue s0)) s0).
+  destruct (fold_quiet (refund_one (st_height s0)) (refund_one_quiet (st_height s0)) (due (st_height s0) (st_queue s0)) s0)
+    as ((Hel & Ht & Hp) & Hwn). fold s1 in Hel, Ht, Hp, Hwn.
+  assert (Hpar1 : st_params s1 = st_params s) by (unfold s1; rewrite refund_fold_params; reflexivity).
+  destruct (k_params k) as [|u0 U] eqn:EU.
+  { rewrite <- EU. split; [apply WsRel_nil; exact EU|intros Hne; exfalso; exact (Hne EU)]. }
+  rewrite <- EU in *.
+  assert (Hune : k_params k <> []) by (rewrite EU; discriminate).
+  assert (Hpne : st_params s1 <> []).
+  { rewrite Hpar1. destruct (tbl_lookup k s u0 T) as (p & _ & Hin & _); [rewrite EU; left; reflexivity|].
+    intros E. rewrite E in Hin. destruct Hin. }
+  unfold update_windows. destruct (st_params s1) as [|q0 Q] eqn:EP; [congruence|]. rewrite <- EP in *. clear q0 Q EP.
+  assert (Hdt : st_time s1 - st_prev s1 = dt).
+  { rewrite Ht, Hp. unfold s0, new_block. sproj. pose proof (HPrev Hune) as HPv. unfold PrevInv in HPv. lia. }
+  rewrite Hdt. rewrite Hpar1. destruct (tick_fold_at dt (st_params s) s1 (tb_pnd _ _ T)) as [Hat _].
+  split; [|intros _; unfold PrevInv; reflexivity].
+  intros p0 w Hin. sproj. rewrite combine_map_snd in Hin. apply in_map_iff in Hin.
+  destruct Hin as ([u [e0 w0]] & E & Hin0). cbn [fst] in E. inversion E; subst p0 w. clear E.
+  destruct (WR u (e0, w0) Hin0) as [He Hw]. cbn [fst snd] in He, Hw.
+  assert (Hu : In u (k_params k)) by (exact (in_combine_l _ _ _ _ Hin0)).
+  destruct (tbl_lookup k s u T Hu) as (p1 & Hgp & Hp1 & Hd1).
+  assert (Ha : exists a, get (ap_denom p1) (st_assets s1) = Some a /\ as_el a = e0).
+  { rewrite Hd1. pose proof (Hel (ap_denom u)) as E1. unfold elmap in E1. change (st_assets s0) with (st_assets s) in E1. rewrite He in E1.
+    destruct (get (ap_denom u) (st_assets s1)) as [a|] eqn:G; [|discriminate]. exists a. split; [reflexivity|]. simpl in E1. congruence. }
+  destruct Ha as (a & Ha & Hae). destruct (Hat p1 a Hp1 Ha) as [F1 F2].
+  unfold elmap in F1. rewrite Hgp. change (if ap_tl p1 && (e0 + dt <? ap_period p1) then (e0 + dt, w0) else (0, 0)) with (tick_rule dt p1 e0 w0).
+  rewrite Hd1 in F1, F2. rewrite F1, F2, Hae, Hwn. change (st_win s0) with (st_win s). rewrite <- Hw.
+  split; reflexivity.
+Qed.
+
+Lemma begin_block_tbl k s dt : Inv s -> Strict s -> Tbl k s -> Tbl k (begin_block s dt).
+Proof.
+  intros I S T. destruct (begin_block_spec s dt I S) as (_ & _ & _ & HP & Hc). destruct T as [T1 T2 T3 T4 T5 T6 T7].
+  constructor; auto; try (rewrite HP; assumption).
+  intros id c Hg. rewrite Hc in Hg. destruct (get id (st_contracts s)) as [c0|] eqn:G; [exact (T3 _ _ G)|discriminate].
+Qed.
+
+Lemma adv_ws k : forall dts s ws, Inv s -> Strict s -> Tbl k s -> PInv k s -> WsRel k s ws ->
+  WsRel k (fold_left begin_block dts s) (wticks k (st_params s) ws dts) /\ PInv k (fold_left begin_block dts s).
+Proof.
+  unfold wticks. induction dts as [|dt dts IH]; intros s ws I S T HPv WR; simpl; [auto|].
   destruct (begin_block_spec s dt I S) as (I1 & S1 & _ & HP1 & _).
-  destruct (k_params k) as [|p0 P] eqn:EP.
-  - split; [apply WsRel_nil; exact EP|]. intros Hne. unfold PInv in *. rewrite EP in Hne. congruence.
-  - rewrite <- EP in *.
-    assert (Hne : k_params k <> []) by (rewrite EP; discriminate).
-    destruct (begin_block_ws k s dt ws I HP Hnd (HPv Hne) WR) as [WR1 HPv1].
-    apply IH; [exact I1|exact S1|rewrite HP1; exact HP|exact Hnd|intros _; exact (HPv1 Hne)|exact WR1].
+  destruct (begin_block_ws k s dt ws I T HPv WR) as [WR1 HPv1].
+  pose proof (IH (begin_block s dt) _ I1 S1 (begin_block_tbl k s dt I S T) HPv1 WR1) as H. rewrite HP1 in H. exact H.
 Qed.
 
 (** ** Part F: the whole checker *)
-Lemma tbl_step k s c : Inv s -> Strict s -> wf_op s (to_op k c) -> is_setparams c = false -> op_wf k c = true -> Tbl k s -> Tbl k (step s (to_op k c)).
+Lemma nodupb_sound l : nodupb l = true -> NoDup l.
 Proof.
-  intros I S W Hsp OW T. destruct (step_inv s _ I S W) as (_ & _ & HP). destruct T as [T1 T2 T3 T4 T5 T6].
-  constructor; auto; [|rewrite HP; destruct c; try discriminate; exact T6].
-  intros id c' Hg. destruct (get id (st_contracts s)) as [c0|] eqn:Hg0; [exact (T3 _ _ Hg0)|].
-  destruct (created_open_lemma s _ id c' I S W Hg0 Hg) as (_ & _ & _ & m & Eo & ->).
-  destruct c as [idx m'| | | |]; cbn [to_op] in Eo; try discriminate. inversion Eo; subst m'.
-  unfold op_wf in OW. apply (proj1 (eqb_true_iff _ _)) in OW. destruct (nthZ_Some _ _ _ OW) as [_ Hn].
-  exact (nth_error_In _ _ Hn).
+  induction l as [|x l IH]; simpl; intros H; [constructor|].
+  apply andb_true_iff in H. destruct H as [H1 H2]. constructor; [|exact (IH H2)].
+  intros Hin. apply negb_true_iff in H1. assert (existsb (Z.eqb x) l = true); [|congruence].
+  apply existsb_exists. exists x. split; [exact Hin|apply Z.eqb_refl].
+Qed.
+
+Lemma tbl_step k s c : Inv s -> Strict s -> wf_op s (to_op k c) -> op_wf k c = true -> Tbl k s -> Tbl k (step s (to_op k c)).
+Proof.
+  intros I S W OW T. destruct (step_inv s _ I S W) as (_ & _ & HP). destruct T as [T1 T2 T3 T4 T5 T6 T7].
+  constructor; auto.
+  - intros id c' Hg. destruct (get id (st_contracts s)) as [c0|] eqn:Hg0; [exact (T3 _ _ Hg0)|].
+    destruct (created_open_lemma s _ id c' I S W Hg0 Hg) as (_ & _ & _ & m & Eo & ->).
+    destruct c as [idx m'| | | |]; cbn [to_op] in Eo; try discriminate. inversion Eo; subst m'.
+    unfold op_wf in OW. apply (proj1 (eqb_true_iff _ _)) in OW. destruct (nthZ_Some _ _ _ OW) as [_ Hn].
+    exact (nth_error_In _ _ Hn).
+  - rewrite HP. destruct c as [| | | |gw gP]; cbn [to_op params_after]; try exact T6.
+    cbn [to_op] in W. unfold wf_op in W. destruct (step_ok s (SetParams gw gP)) eqn:Hok; [|exact T6].
+    destruct (compat_b_sound s gP (W eq_refl)) as [SD _]. intros d. rewrite (T6 d). exact (SD d).
+  - rewrite HP. destruct c as [| | | |gw gP]; cbn [to_op params_after]; try exact T7.
+    destruct (step_ok s (SetParams gw gP)) eqn:Hok; [|exact T7].
+    unfold step_ok in Hok. cbn [exec] in Hok. destruct ((gw =? GOV) && params_valid gP) eqn:E; [|discriminate].
+    apply andb_true_iff in E. destruct E as [_ E]. unfold params_valid in E. apply andb_true_iff in E. destruct E as [_ E].
+    exact (nodupb_sound _ E).
 Qed.
 
 (** the observations handed to the checker are the projections of the model's own states *)
@@ -1314,9 +1343,9 @@ Proof.
   rewrite (wclaims_eq k po o ws (Pof s) (Pof s)).
   2:{ rewrite (vw_contracts _ _ _ _ _ V). reflexivity. }
   2:{ rewrite (vw_contracts _ _ _ _ _ V'). unfold cproj, Pof. rewrite E1. reflexivity. }
-  intros p w Hin Htl. rewrite combine_map_snd in Hin. apply in_map_iff in Hin.
+  intros p w Hin. rewrite combine_map_snd in Hin. apply in_map_iff in Hin.
   destruct Hin as ([p0 [el0 w0]] & E & Hin0). cbn [fst snd] in E. inversion E; subst p w. clear E.
-  destruct (WR p0 (el0, w0) Hin0 Htl) as [He Hw]. cbn [fst snd] in *. split; [exact He|].
+  destruct (WR p0 (el0, w0) Hin0) as [He Hw]. cbn [fst snd] in *. split; [exact He|].
   rewrite (zsum_map_ext _ (fun _ => 0)) by (intros; apply termW_same).
   rewrite Hw. clear. induction (k_ids k); simpl; lia.
 Qed.
@@ -1336,46 +1365,44 @@ Lemma check_from_pass k nd : forall steps s po ws i code0,
 Proof.
   induction steps as [|[c d] rest IH]; intros s po ws i code0 I S T V WR PV WF TR; [reflexivity|].
   cbn [map fst wf_run] in WF. destruct WF as [W WF']. destruct TR as (OW & V' & TR').
-  destruct (is_setparams c) eqn:Hsp.
-  { (* a parameter change: the monitors look at this step, then stop *)
-    destruct c as [| | | |gw gP]; try discriminate. cbn [to_op] in *.
-    cbn [check_from is_setparams]. cbn [andb negb to_op].
-    pose proof (Vw_corr _ _ _ _ _ V') as Hcorr.
-    pose proof (p03_setparams k nd s gw gP po (undiff po d) code0 _ V V') as H03.
-    destruct (setparams_fields s gw gP) as (E1 & E2 & E3 & E4 & E5 & _).
-    assert (V4 : Vw4 k nd s (undiff po d)).
-    { constructor.
-      - rewrite (vw_contracts _ _ _ _ _ V'). unfold cproj. rewrite E1. reflexivity.
-      - rewrite (vw_bals _ _ _ _ _ V'). rewrite E3. reflexivity.
-      - rewrite (vw_sups _ _ _ _ _ V'). unfold sproj_assets. rewrite E4. reflexivity.
-      - rewrite (vw_bsups _ _ _ _ _ V'). unfold bsproj. rewrite E5. reflexivity. }
-    pose proof (p04_state4 k nd s _ _ I T V4 (WsRel_setparams k nd s gw gP code0 _ po _ ws V V' WR)) as H04.
-    rewrite OW, Hcorr, H03, H04. cbn.
-    exact (check_from_off k nd rest _ _ _ _ TR'). }
-  assert (Hns : forall who P', to_op k c <> SetParams who P') by (destruct c; try discriminate; intros; discriminate).
-  cbn [check_from]. rewrite Hsp. cbn [andb negb]. set (o := undiff po d) in *. set (s' := step s (to_op k c)) in *.
+  cbn [check_from]. set (o := undiff po d) in *. set (s' := step s (to_op k c)) in *.
   destruct (step_inv s _ I S W) as (I' & S' & HP').
-  pose proof (tbl_step k s c I S W Hsp OW T) as T'. fold s' in T', I', S', HP'.
+  pose proof (tbl_step k s c I S W OW T) as T'. fold s' in T', I', S', HP'.
   pose proof (Vw_corr _ _ _ _ _ V') as Hcorr.
   pose proof (p03_step k nd s c po o code0 I S W OW T' V V') as H03.
+  (* an accepted parameter change of a well-formed history is compatible: the monitors stay on *)
+  assert (Hinc : (match c with
+                  | CSetParams _ P' => (o_code o =? 0) && negb (compat_b s P')
+                  | _ => false
+                  end) = false).
+  { destruct c as [| | | |gw gP]; try reflexivity. cbn [to_op] in *. rewrite (vw_code _ _ _ _ _ V').
+    unfold wf_op in W. destruct (step_ok s (SetParams gw gP)); [rewrite (W eq_refl); reflexivity|reflexivity]. }
   assert (HW : WsRel k s' (match c with
-                           | CAdv dts => wticks k ws dts
-                           | CAdvN n dt => wticks k ws (repeat dt (Z.to_nat n))
+                           | CAdv dts => wticks k (o_params po) ws dts
+                           | CAdvN n dt => wticks k (o_params po) ws (repeat dt (Z.to_nat n))
                            | _ => wclaims k po o ws
                            end) /\ PInv k s').
-  { destruct (step_facts k s (to_op k c) I S W Hns T') as (evs & F).
-    destruct c as [idx m|who idx secret|dts|n dt|gw gP]; cbn [to_op] in *; [| | | |discriminate Hsp].
-    - split; [apply (WsRel_msg k nd s (Create m) code0 (if step_ok s (Create m) then 0 else 1) po o ws evs F S W); [intros dts; discriminate|intros; discriminate|exact V|exact V'|exact WR]|].
+  { rewrite (vw_params _ _ _ _ _ V).
+    destruct c as [idx m|who idx secret|dts|n dt|gw gP]; cbn [to_op] in *.
+    - destruct (step_facts k s (Create m) I S W (fun _ _ => ltac:(discriminate)) T') as (evs & F).
+      split; [apply (WsRel_msg k nd s (Create m) code0 (if step_ok s (Create m) then 0 else 1) po o ws evs F S W); [intros dts; discriminate|intros; discriminate|exact V|exact V'|exact WR]|].
       destruct (msg_win s (Create m) I S W (fun dts => ltac:(discriminate)) (fun _ _ => ltac:(discriminate))) as ((_ & Ht & Hp) & _).
       intros Hne. unfold PrevInv, s'. rewrite Ht, Hp. exact (PV Hne).
-    - split; [apply (WsRel_msg k nd s (Claim who (id_at k idx) secret) code0 (if step_ok s (Claim who (id_at k idx) secret) then 0 else 1) po o ws evs F S W); [intros dts; discriminate|intros; discriminate|exact V|exact V'|exact WR]|].
+    - destruct (step_facts k s (Claim who (id_at k idx) secret) I S W (fun _ _ => ltac:(discriminate)) T') as (evs & F).
+      split; [apply (WsRel_msg k nd s (Claim who (id_at k idx) secret) code0 (if step_ok s (Claim who (id_at k idx) secret) then 0 else 1) po o ws evs F S W); [intros dts; discriminate|intros; discriminate|exact V|exact V'|exact WR]|].
       destruct (msg_win s (Claim who (id_at k idx) secret) I S W (fun dts => ltac:(discriminate)) (fun _ _ => ltac:(discriminate))) as ((_ & Ht & Hp) & _).
       intros Hne. unfold PrevInv, s'. rewrite Ht, Hp. exact (PV Hne).
-    - unfold s', step. cbn [exec]. exact (adv_ws k dts s ws I S (tb_params _ _ T) (tb_pden _ _ T) PV WR).
-    - unfold s', step. cbn [exec]. exact (adv_ws k _ s ws I S (tb_params _ _ T) (tb_pden _ _ T) PV WR). }
+    - unfold s', step. cbn [exec]. exact (adv_ws k dts s ws I S T PV WR).
+    - unfold s', step. cbn [exec]. exact (adv_ws k _ s ws I S T PV WR).
+    - (* a parameter change touches neither the records nor the window ghosts nor the clock *)
+      pose proof (WsRel_setparams k nd s gw gP code0 _ po o ws V V' WR) as WR1.
+      destruct (setparams_fields s gw gP) as (_ & _ & _ & E4 & _ & E6 & E7 & E8 & _). fold s' in E4, E6, E7, E8.
+      split.
+      + intros p w Hin. destruct (WR1 p w Hin) as [A B]. rewrite E4, E7. auto.
+      + intros Hne. unfold PrevInv. rewrite E6, E8. exact (PV Hne). }
   destruct HW as [WR' PV'].
-  pose proof (p04_state k nd s' _ o _ I' T' V' WR') as H04.
-  rewrite OW, Hcorr, H03, H04. cbn.
+  pose proof (p04_state k nd s' _ o _ I' T' V' WR') as H04. rewrite <- (vw_params _ _ _ _ _ V') in H04.
+  rewrite OW, Hcorr, H03, Hinc, H04. cbn.
   exact (IH s' o _ (i + 1) _ I' S' T' V' WR' PV' WF' TR').
 Qed.
 
@@ -1397,9 +1424,10 @@ Proof.
   intros H (T1 & T2 & T3 & T4) V0 TR.
   destruct (hyps_b_sound k H) as (HP & HE & WF).
   destruct (init_inv (k_params k) (bank_of k (k_obs0 k)) (o_time (k_obs0 k)) HP HE) as [I0 S0].
-  assert (T0 : Tbl k (case_init k)) by (constructor; auto; intros id c Hg; discriminate).
+  assert (T0 : Tbl k (case_init k)).
+  { constructor; auto; [intros id c Hg; discriminate|intros d; reflexivity]. }
   assert (WR0 : WsRel k (case_init k) (map (fun _ => (0, 0)) (k_params k))).
-  { intros p w Hin _. assert (Hp : In p (k_params k)) by exact (in_combine_l _ _ _ _ Hin).
+  { intros p w Hin. assert (Hp : In p (k_params k)) by exact (in_combine_l _ _ _ _ Hin).
     assert (Hw : w = (0, 0)).
     { apply in_combine_r in Hin. apply in_map_iff in Hin. destruct Hin as (? & E & _). congruence. }
     subst w. destruct (get_param_of_In _ _ Hp) as (p' & Hgp). unfold case_init, init. sproj.
@@ -1407,7 +1435,7 @@ Proof.
   assert (PV0 : PInv k (case_init k)) by (intros _; reflexivity).
   assert (WFs : wf_run (case_init k) (map (fun cd : cop * dobs => to_op k (fst cd)) (k_steps k))) by exact WF.
   pose proof (check_from_pass k nd (k_steps k) (case_init k) (k_obs0 k) _ 0 0 I0 S0 T0 V0 WR0 PV0 WFs TR) as HC.
-  pose proof (p04_state k nd (case_init k) 0 (k_obs0 k) _ I0 T0 V0 WR0) as H04.
+  pose proof (p04_state k nd (case_init k) 0 (k_obs0 k) _ I0 T0 V0 WR0) as H04. rewrite <- (vw_params _ _ _ _ _ V0) in H04.
   pose proof (Vw_corr _ _ _ _ _ V0) as Hc0.
   assert (H0 : hyps0_b k = true).
   { unfold hyps_b in H. unfold hyps0_b. apply andb_true_iff in H. destruct H as [H12 H3]. rewrite H12. simpl.
